@@ -80,9 +80,30 @@ def unit_list(fe):
     return lemma
 
 
+SERVER_CTORS = [(S.SY + 'ModbusTcpServer.__init__', 'context', 'context'), (S.SY + 'ModbusUdpServer.__init__', 'context', 'context'),
+                (S.SY + 'ModbusSerialServer.__init__', 'context', 'context'), (S.AIO + 'ModbusTcpServer.__init__', 'context', 'context'),
+                (S.AIO + 'ModbusUdpServer.__init__', 'context', 'context'),
+                (S.TW + 'ModbusServerFactory.__init__', 'store', 'store'), (S.TW + 'ModbusUdpProtocol.__init__', 'store', 'store')]
+
+
+def context_kept(E):
+    """the server serves the context object it was given - whatever that context hosts at that moment, nothing included (units may be
+    added to it later): every server constructor stores its context argument, and where it does so with `context or <default>` the
+    argument's class is always truthy.  Decided on the AST of the constructors and of ModbusServerContext (ownership back end)"""
+    from pyvc import ownership as O
+    for q, param, attr in SERVER_CTORS:
+        ok, detail = O.keeps_argument(q, param, attr, S.CTX)
+        if ok is None:
+            if E.mode != 'symbolic':
+                continue
+            from pyvc.values import Unsupported
+            raise Unsupported('%s: %s' % (q, detail))
+        E.prove('context:the-server-serves-the-context-object-it-was-given[%s]' % q.split('.', 2)[-1].replace('.__init__', ''), ok, backend='ownership', detail=detail)
+
+
 def get_units():
     from . import store_contracts as STC
-    us = [STC.default_blocks_unit(PROP), Unit('%s/validate_unit_id' % PROP, validate_unit_id, [PROP], functions=[FR + '._validate_unit_id'])]
+    us = [STC.default_blocks_unit(PROP), Unit('%s/context.kept' % PROP, context_kept, [PROP], functions=[q for q, _, _ in SERVER_CTORS]), Unit('%s/validate_unit_id' % PROP, validate_unit_id, [PROP], functions=[FR + '._validate_unit_id'])]
     for fe in S.FRONTENDS:
         us.append(Unit('%s/routing.%s' % (PROP, fe), S.serve_unicast(fe, PROP, clauses=('routing', 'absent')), [PROP], functions=S.FUNCS[fe]))
         if S.FRONTENDS[fe][2]:
